@@ -203,6 +203,104 @@ fn ev_conv_ntt(rng: &mut StdRng, out: &mut Out, case: &str, sh: &Value) {
     });
 }
 
+/// Large transforms: the full cyclic product (offset 0) of two operands filling the whole transform, either of
+/// period 2 with full-size values or sparse; only a sample of output coefficients is logged, TLC recomputes them
+/// from the operand description by the closed forms of PolyConv.tla.
+fn ev_conv_big(rng: &mut StdRng, out: &mut Out, case: &str, sh: &Value) {
+    let alg = sh["alg"].as_str().unwrap().to_string();
+    let bits = sh["bits"].as_u64().unwrap() as u32;
+    let lg = sh["lg"].as_u64().unwrap() as u32;
+    let pat = sh["pat"].as_str().unwrap();
+    let size = 1usize << lg;
+    let n = modulus(rng, bits);
+    let zn = ZmodN::new(n);
+    let mut pa = vec![Uint::ZERO; size];
+    let mut pb = vec![Uint::ZERO; size];
+    let mut ev = json!({"op": "conv_big", "alg": alg, "case": case, "shape": sh, "size": size, "bits": bits, "pat": pat,
+                        "nd": n.to_string(), "n": dn(&n)});
+    let mut ks: Vec<usize> = vec![0, 1, 2, 3, size / 2, size / 2 + 1, size - 2, size - 1];
+    if pat == "sparse" {
+        let pick = |rng: &mut StdRng, v: &mut Vec<Uint>| -> Vec<(usize, Uint)> {
+            let mut t: Vec<(usize, Uint)> = vec![];
+            // first and last positions always, the others random
+            let mut poss = vec![0usize, size - 1];
+            for _ in 0..6 {
+                poss.push(rng.gen_range(0..size));
+            }
+            for pos in poss {
+                if t.iter().all(|x| x.0 != pos) {
+                    let x = Uint::ONE + rand_below(rng, &(n - Uint::ONE));
+                    v[pos] = x;
+                    t.push((pos, x));
+                }
+            }
+            t
+        };
+        let ap = pick(rng, &mut pa);
+        let bp = pick(rng, &mut pb);
+        ks.clear();
+        for (i, _) in &ap {
+            for (j, _) in &bp {
+                ks.push((i + j) % size);
+            }
+        }
+        ks.sort();
+        ks.dedup();
+        while ks.len() > 14 {
+            let i = rng.gen_range(0..ks.len());
+            ks.remove(i);
+        }
+        for _ in 0..4 {
+            ks.push(rng.gen_range(0..size)); // mostly positions where the product is zero
+        }
+        ks.sort();
+        ks.dedup();
+        let pairs = |t: &[(usize, Uint)]| Value::from(t.iter().map(|(p, x)| json!([p, dn(x)])).collect::<Vec<_>>());
+        ev["ap"] = pairs(&ap);
+        ev["bp"] = pairs(&bp);
+    } else {
+        let val = |rng: &mut StdRng, d: u64| {
+            if pat == "ptop" { n - Uint::from(d) } else { rand_below(rng, &n) }
+        };
+        let d = |rng: &mut StdRng| 1 + rng.gen_range(0..3u64); // moduli here have at least 64 bits
+        let (d1, d2, d3, d4) = (d(rng), d(rng), d(rng), d(rng));
+        let pv = [val(rng, d1), val(rng, d2)];
+        let qv = [val(rng, d3), val(rng, d4)];
+        for i in 0..size {
+            pa[i] = pv[i % 2];
+            pb[i] = qv[i % 2];
+        }
+        for _ in 0..4 {
+            ks.push(rng.gen_range(0..size));
+        }
+        ks.sort();
+        ks.dedup();
+        ev["pv"] = dig(&pv);
+        ev["qv"] = dig(&qv);
+    }
+    ev["ks"] = json!(ks);
+    let (ma, mb) = (mints(&zn, &pa), mints(&zn, &pb));
+    let zn2 = zn.clone();
+    let alg2 = alg.clone();
+    let r = guard(move || {
+        let mut res = vec![MInt::default(); size];
+        if alg2 == "ntt" {
+            let mzp = MultiZmodP::new(&zn2, lg);
+            convolve_modn_ntt(&mzp, size, &ma, &mb, &mut res, 0);
+        } else {
+            arith_fft::convolve_modn(&zn2, size, &ma, &mb, &mut res, 0);
+        }
+        res
+    });
+    out.ev(match r {
+        Ok(res) => {
+            let cs: Vec<Uint> = ks.iter().map(|&k| zn.to_int(res[k])).collect();
+            merge(ev, json!({"cs": dig(&cs)}))
+        }
+        Err(e) => merge(ev, e),
+    });
+}
+
 fn ev_poly(rng: &mut StdRng, out: &mut Out, case: &str, sh: &Value) {
     let pop = sh["pop"].as_str().unwrap().to_string();
     let bits = sh["bits"].as_u64().unwrap() as u32;
@@ -408,6 +506,7 @@ pub fn run(args: &Args) -> i32 {
             "conv_ss" => ev_conv_ss(&mut rng, &mut out, &case, sh),
             "conv_ntt" => ev_conv_ntt(&mut rng, &mut out, &case, sh),
             "poly" => ev_poly(&mut rng, &mut out, &case, sh),
+            "conv_big" => ev_conv_big(&mut rng, &mut out, &case, sh),
             o => panic!("unknown shape op {}", o),
         }
     }
